@@ -8,7 +8,7 @@ from props import c19
 out = sys.argv[1] if len(sys.argv) > 1 else os.path.join(HERE, "sweep_broken.json")
 cases = []
 for f in vsgapi.corpus():
-    for kind in transforms.BREAK_KINDS:
+    for kind in (os.environ.get("SWEEP_BREAK_KINDS", "").split(",") if os.environ.get("SWEEP_BREAK_KINDS") else transforms.BREAK_KINDS):
         for k in range(3):
             for fix in (False, True):
                 cases.append({"kind": "broken", "file": f, "break": kind, "k": k, "fix": fix, "_cpu": c19.BROKEN_CPU})
